@@ -1318,6 +1318,34 @@ func rawOr(xs []*Term) *Term {
 
 // guardLits extracts literal truth values from a guard: And(l1,..,ln) gives
 // each li true; Not(x) gives x false; Not(Or(a,b)) gives a,b false.
+// litSubst[k] for a literal map: terms known to equal a constant (x == c).
+type litSet struct {
+	truth map[int]bool
+	subst map[int]*Term
+}
+
+func guardLitSet(g *Term) *litSet {
+	ls := &litSet{truth: guardLits(g), subst: map[int]*Term{}}
+	var walk func(t *Term)
+	walk = func(t *Term) {
+		switch t.op {
+		case OAnd:
+			for _, a := range t.args {
+				walk(a)
+			}
+		case OEq:
+			a, b := t.args[0], t.args[1]
+			if a.IsConst() && !b.IsConst() && b.sort.K == SBV {
+				ls.subst[b.id] = a
+			} else if b.IsConst() && !a.IsConst() && a.sort.K == SBV {
+				ls.subst[a.id] = b
+			}
+		}
+	}
+	walk(g)
+	return ls
+}
+
 func guardLits(g *Term) map[int]bool {
 	lits := map[int]bool{}
 	var pos func(t *Term)
@@ -1392,7 +1420,11 @@ func rebuild(t *Term, a []*Term) *Term {
 
 // simplifyUnder rewrites t using known literal values (bounded effort).
 func simplifyUnder(t *Term, lits map[int]bool, budget int) *Term {
-	if len(lits) == 0 {
+	return simplifyUnderS(t, lits, nil, budget)
+}
+
+func simplifyUnderS(t *Term, lits map[int]bool, subst map[int]*Term, budget int) *Term {
+	if len(lits) == 0 && len(subst) == 0 {
 		return t
 	}
 	memo := map[int]*Term{}
@@ -1403,6 +1435,8 @@ func simplifyUnder(t *Term, lits map[int]bool, budget int) *Term {
 			if v, ok := lits[t.id]; ok {
 				return Bool(v)
 			}
+		} else if c, ok := subst[t.id]; ok {
+			return c
 		}
 		if len(t.args) == 0 || t.hasB || depth > 12 {
 			return t
@@ -1471,4 +1505,95 @@ func debugStr(t *Term, depth int) string {
 		n = "lambda"
 	}
 	return "(" + n + " " + strings.Join(ss, " ") + ")"
+}
+
+// ---- variable support sets (for cone-of-influence reduction of assumptions) ----
+
+type bitset []uint64
+
+func (b bitset) or(c bitset) bitset {
+	if len(c) > len(b) {
+		nb := make(bitset, len(c))
+		copy(nb, b)
+		b = nb
+	}
+	for i := range c {
+		b[i] |= c[i]
+	}
+	return b
+}
+
+func (b bitset) intersects(c bitset) bool {
+	n := len(b)
+	if len(c) < n {
+		n = len(c)
+	}
+	for i := 0; i < n; i++ {
+		if b[i]&c[i] != 0 {
+			return true
+		}
+	}
+	return false
+}
+
+type supportCalc struct {
+	index map[string]int // variable / UF symbol -> bit
+	memo  map[int]bitset
+}
+
+func newSupportCalc() *supportCalc {
+	return &supportCalc{index: map[string]int{}, memo: map[int]bitset{}}
+}
+
+func (sc *supportCalc) bit(name string) bitset {
+	i, ok := sc.index[name]
+	if !ok {
+		i = len(sc.index)
+		sc.index[name] = i
+	}
+	b := make(bitset, i/64+1)
+	b[i/64] |= 1 << uint(i%64)
+	return b
+}
+
+// support returns the set of free variables and uninterpreted symbols of t.
+func (sc *supportCalc) support(t *Term) bitset {
+	if b, ok := sc.memo[t.id]; ok {
+		return b
+	}
+	// iterative post-order to avoid deep recursion
+	type fr struct {
+		t *Term
+		i int
+	}
+	st := []fr{{t, 0}}
+	for len(st) > 0 {
+		f := &st[len(st)-1]
+		if _, ok := sc.memo[f.t.id]; ok {
+			st = st[:len(st)-1]
+			continue
+		}
+		if f.i < len(f.t.args) {
+			a := f.t.args[f.i]
+			f.i++
+			if _, ok := sc.memo[a.id]; !ok {
+				st = append(st, fr{a, 0})
+			}
+			continue
+		}
+		cur := f.t
+		st = st[:len(st)-1]
+		var b bitset
+		switch cur.op {
+		case OVar:
+			b = sc.bit("v:" + cur.name)
+		case OApply:
+			b = sc.bit("f:" + cur.name)
+		}
+		for _, a := range cur.args {
+			b = append(bitset{}, b...).or(sc.memo[a.id])
+		}
+		sc.memo[cur.id] = b
+	}
+	return sc.memo[t.id]
 }
